@@ -121,6 +121,29 @@ def _model_chunk(vecs):
     return diff
 
 
+def _convert_chunk(vecs):
+    """compare the model's outcome class, error position and converted node listing (AbbrConvert.tla) with abbreviation.parse()"""
+    import grammar
+    from emmet.abbreviation import parse
+    from emmet.scanner import ScannerException
+    from emmet.token_scanner import TokenScannerException
+    diff = []
+    for v in vecs:
+        src = _sub(v['s'])
+        exp = json.loads(_sub(json.dumps(v['out'], ensure_ascii=False)))
+        try:
+            got = {'kind': 'ok', 'pos': -1, 'nodes': grammar._listing(parse(src).children, 0, [])}
+        except ScannerException as ex:
+            got = {'kind': 'scanerr', 'pos': ex.pos, 'nodes': []}
+        except TokenScannerException as ex:
+            got = {'kind': 'tokerr', 'pos': -2 if ex.pos is None else ex.pos, 'nodes': []}
+        except Exception as ex:
+            got = {'kind': 'raised ' + type(ex).__name__, 'pos': -1, 'nodes': []}
+        if got != exp:
+            diff.append(('converted tree' if got['kind'] == exp['kind'] == 'ok' else 'outcome %s/%s' % (exp['kind'], got['kind']), src))
+    return diff
+
+
 def run(out):
     quick = out.tier == 'quick'
     out.rule = ('one trace per (string generated by Strings.tla, tokenizer mode in markup / css-property / css-value); non-trivial = the '
@@ -176,19 +199,23 @@ def run(out):
 
 
 def _model_comparison(out, quick):
-    """conformance of the specification's own tokenizer + parser (AbbrSyntax.tla) with the real code; differences are
+    """conformance of the specification's own tokenizer + parser (AbbrSyntax.tla) and convert() (AbbrConvert.tla) with the real code; differences are
     reported as diagnostics: the property is the tiling, not a particular token boundary"""
-    insts = [('markup-model-all-symbols', dict(constants={'Alphabet': MARKUP_ALPHA - {"|"}, 'MaxLen': 2 if quick else 3})),
+    insts = [('markup-model-all-symbols', dict(constants={'Alphabet': MARKUP_ALPHA - {"|"}, 'MaxLen': 3 if quick else 4})),
              ('markup-model-structural', dict(constants={'Alphabet': {"a", "1", "$", "#", "*", "@", "{", "}", "[", "]", "(", ")", ">", "^", ".", "=", "BS", "DQ", " "},
-                                                         'MaxLen': 3 if quick else 4}))]
-    for name, kw in insts:
-        r = common.run_tlc('AbbrSyntaxMC', timeout=3000, heap='12g', **kw)
+                                                         'MaxLen': 3 if quick else 5}))]
+    insts = [(n, 'AbbrSyntaxMC', kw, _model_chunk) for n, kw in insts] + \
+            [(n.replace('markup-model', 'convert-model'), 'AbbrConvertMC', dict(constants=dict(kw['constants'], RepeatLimit=1000000)), _convert_chunk)
+             for n, kw in insts]
+    for name, module, kw, chunk in insts:
+        r = common.run_tlc(module, timeout=3000, heap='12g', **kw)
         if r.violated:
             out.add_tlc(name, r)
             out.violation('spec-invariant %s violated in the tokenizer model' % r.violated, {'instance': name, 'tlc': r.error[:2000]})
             continue
         vecs = r.vectors()
-        diff = common.pool_map(_model_chunk, vecs, chunk=1500)
+        r.tagged = {}
+        diff = common.pool_map(chunk, vecs, chunk=1500)
         fam = {}
         for what, src in diff:
             fam.setdefault(what, []).append(src)
